@@ -69,7 +69,9 @@ func checkMemoryStoreAppend(c *Ctx, p *Prog, rule string) {
 		c.Unresolved(rule, "UNRESOLVED-ANCHOR/MemoryStore.Append", "method not found")
 		return
 	}
-	res := runLocksFull(p, []guardSpec{{"MemoryStore", "events", "mu"}, {"MemoryStore", "nextOffset", "mu"}}, map[string]bool{PkgBus: true}, false, nil)
+	M := discoverMem(p)
+	M.report(c, rule)
+	res := runLocksFull(p, []guardSpec{{"MemoryStore", M.Events, M.Mu}, {"MemoryStore", M.Counter, M.Mu}}, map[string]bool{PkgBus: true}, false, nil)
 	n := 0
 	for k, a := range res.Accesses {
 		if len(k) < 22 || k[:22] != "(*MemoryStore).Append/" {
